@@ -2,3 +2,4 @@ pub mod check;
 pub mod model;
 pub mod rng;
 pub mod report;
+pub mod watchdog;
